@@ -27,6 +27,15 @@ CHECKS['C03'] = dict(cat='other', technique='all-paths energy summation over the
 CHECKS['C04'] = dict(cat='other', technique='per-call-site sign/species classification, all-paths particle-count summaries composed through the dispatch, loop-progress and dominance rules over 241 functions on generation paths',
    text='Decides: species (every particle-code argument is one of the four supported codes), sign class of every creation-time argument at all ~3000 emission call sites and of every decay-time formula, the daughter-chain shape (called at time 0, block shifted from the index captured just before), non-negative constant emission energies (2500 sites), 1..100 particles per published name over all CFG paths (unit summaries composed through the specialised dispatch; infeasible threshold paths pruned), label/time-0 on every generate path including the gA branch, and for each of the 20 rejection loops that a fresh deviate is drawn on every iteration and the exit depends on it (necessary for termination).',
    note='Not decided: an actual bound on the number of deviates, finiteness of sampled (non-constant) energies, termination of deterministic loops. Observation recorded: Te124low thlev=0.55-12 (negative half-life, inherited from the reference; harmless because of the thlev>0 guard).', ref='3/C04')
+CHECKS['C07'] = dict(cat='other', technique='whole-program write-set analysis of static-storage variables with single-guard confinement, who-may-call for entropy sources, forward dataflow for invalidated element bindings, must-definition analysis of the private working state, reset write-set inclusion',
+   text='Decides four necessary structural conditions, each of which, when broken, makes two histories differ: (1) no variable with static storage is written after its initialisation on any path reachable from the API (48 statics, call-graph confinement to one guarded initialiser); (2) no time/entropy source is called anywhere in the library; (3) shoot() resets the event before any generator or operation runs, event/particle/bbpars reset() assign every data member, and no pointer/reference into the particle vector survives a call that may grow it; (4) _init_ assigns the working state it reads (bb_params, use_dbd_ga) on every path before reading it. Equality of two concrete event streams is not decided.',
+   note='Trusted: d0ast resolved references, the may_add call-graph summary (over-approximation). Scratch tables re-filled per shot (spthe2) are covered by C02, not here.', ref='3/C07')
+CHECKS['C09'] = dict(cat='other', technique='typestate rules on decay0_generator (throw-guard dominance over member writes, single-site ordering, reset write-set inclusion) over the lowered CFG of each method',
+   text='Decides: every setter and add_operation writes members only behind `if (is_initialized()) throw`; shoot()/initialize() begin with the (not-)initialised guard; `_initialized_ = true` has one site, after _init_ returned; initialize() refuses undefined category, empty isotope, unknown mode, invalid level and inverted window before _init_; reset() reaches _reset_() on every path; _reset_/_set_defaults_ assign every data member of the generator, of its private implementation, of bbpars and its four bases, of dbd_gA and of the MDL operation; no raw new is stored in a member.',
+   note='Not decided: that re-configuring after reset yields the same events as a fresh instance (follows from reset completeness + C07 structurally). Known finding: reset() keeps the debug flag.', ref='3/C09')
+CHECKS['C12'] = dict(cat='other', technique='enumeration of all shared mutable state: static-storage write sets with single-guard confinement over the call graph, lock-scope rule for process-wide mutators, pointer/reference member table',
+   text='A data race needs shared mutable state; the check enumerates all of it: every non-const static-storage variable of the library must be never written after its initialiser or written only by internal code reachable solely from the initialiser of one function-local static; every call that mutates process-wide state (GSL error handler, environment, locale, signals, C random seed) must lie in the scope of a lock on a static mutex; every pointer/reference data member is in a reviewed per-instance table. Schedules themselves are not explored (the yield-point hook the property suggests is a dynamic device and is not used).',
+   note='Trusted: C++11 thread-safe initialisation of function-local statics; GSL/libstdc++ documented thread safety.', ref='3/C12')
 NA = {}
 
 def main():
